@@ -298,7 +298,7 @@ class Model:
             iterations[0] += 1
 
             # Check if all assigned
-            unassigned = [n for n in domains if len(domains[n]) > 1 and not n.startswith("_")]
+            unassigned = [n for n in domains if len(domains[n]) > 1 and not n.startswith("_aux")]
             if not unassigned:
                 # Found solution
                 sol = {n: next(iter(d)) for n, d in domains.items() if not n.startswith("_")}
